@@ -11,13 +11,22 @@ thread_local! {
     /// tier re-runs every case on further data sets): shifts every data seed
     static VARIANT: std::cell::Cell<u64> = const { std::cell::Cell::new(0) };
 }
+thread_local! {
+    static USED: std::cell::Cell<bool> = const { std::cell::Cell::new(false) };
+}
 pub fn set_variant(v: u64) {
     VARIANT.with(|c| c.set(v));
+    USED.with(|c| c.set(false));
+}
+/// did the case just run draw any variant-dependent data? (if not, its variants are duplicates)
+pub fn data_used() -> bool {
+    USED.with(|c| c.get())
 }
 pub fn variant() -> u64 {
     VARIANT.with(|c| c.get())
 }
 fn vseed(seed: u64) -> u64 {
+    USED.with(|c| c.set(true));
     seed.wrapping_add(7919u64.wrapping_mul(variant()))
 }
 
